@@ -272,6 +272,19 @@ pub fn run_query(
     Ok(())
 }
 
+/// Every 1 January and 1 July from 1958 to 2045 (seconds since 1900): the dates at which a leap
+/// second *could* have been inserted. Most of them carry none; an implementation that infers
+/// anything from the calendar instead of the table shows up there.
+pub fn candidate_dates() -> Vec<i128> {
+    use crate::refdata::ntp_seconds_of_date as ntp;
+    let mut v = Vec::new();
+    for y in 1958..=2045 {
+        v.push(ntp(y, 1, 1) as i128);
+        v.push(ntp(y, 7, 1) as i128);
+    }
+    v
+}
+
 /// Full sweep: every whole second within +-40 s of every entry of `table` and of `shipped`.
 pub fn full_sweep(
     p: &LeapSecondsFile,
@@ -293,6 +306,11 @@ pub fn full_sweep(
     }
     for &t in fixed {
         probe_whole_second(p, table, same, t, stats, &mut log)?;
+    }
+    for t in candidate_dates() {
+        for d in [-1i128, 0, 1] {
+            probe_whole_second(p, table, same, t + d, stats, &mut log)?;
+        }
     }
     if same {
         // Differential-only probes at sub-second distances and through other time scales.
@@ -749,6 +767,14 @@ pub fn conv_full_sweep(shipped: &[Entry], fixed: &[i128], known: Known, st: &mut
         utc.push(s * NS_PER_S);
         utc.push(s * NS_PER_S + 999_999_999);
         tai.push(s * NS_PER_S);
+    }
+    for s in candidate_dates() {
+        for d in [-2i128, -1, 0, 1, 2] {
+            utc.push((s + d) * NS_PER_S);
+            tai.push((s + d) * NS_PER_S + 500_000_000);
+        }
+        utc.push(s * NS_PER_S - 1);
+        utc.push(s * NS_PER_S - 238);
     }
     // Boundaries of the representation rather than of the table: a Duration counts centuries of
     // 36525 days from 1900-01-01, so the nanosecond field rolls over on 2000-01-02, 2100-01-03, ...;
